@@ -14,6 +14,9 @@ def main():
     seed, tier = common.seed_and_tier(a.tier)
     import warnings
     warnings.filterwarnings("ignore")
+    if a.replay:
+        import replay
+        sys.exit(replay.run(a.pid, a.replay))
     mod = importlib.import_module("checks." + a.pid.lower())
     rc = mod.run(tier, seed, replay=a.replay)
     print("%s tier=%s seed=%d exit=%d" % (a.pid, tier, seed, rc))
